@@ -56,6 +56,7 @@ var (
 	cUnaligned   = simrt.RegisterCounter("probe_crypto_len_not_multiple_of_16")
 	cReuseTypes  = simrt.RegisterCounter("probe_reuse_types_exercised")
 	cStaleBefore = simrt.RegisterCounter("probe_worker_ran_after_buffer_reuse")
+	cScribbleOwn = simrt.RegisterCounter("fault_owner_overwrites_its_decoded_frame")
 )
 
 const (
@@ -94,8 +95,21 @@ type world struct {
 	region   int
 }
 
+// fixed proprietary commands used inside frames: registered by the main
+// goroutine before the tasks start and never touched by the operators (who
+// register 0x80..0x83), so that frame content stays comparable
+const (
+	propCID  = 0x90
+	propSize = 3
+)
+
 func build(w *sim.World) {
 	genReset()
+	for _, up := range []bool{false, true} {
+		if err := lorawan.RegisterProprietaryMACCommand(up, propCID, propSize); err != nil {
+			panic(err)
+		}
+	}
 	wd := &world{}
 	wd.nWorkers = 2 + simrt.Choose(3)
 	nPackets := 4 + simrt.Choose(28)
@@ -162,6 +176,7 @@ func receiver(wd *world, n int, sub uint64) {
 		fcnts[si]++
 		up := r.Intn(2) == 0
 		g.Up = up
+		g.Prop = map[byte]int{propCID: propSize}
 		f := spec.GenFrame(r, up, s.DevAddr, fcnts[si], g, 120)
 		if f.HasPort && f.FPort == 0 && len(f.FRMCmds) == 0 {
 			// FPort 0 without commands is W-RADIO's (C05) subject, not isolation
@@ -269,6 +284,42 @@ func ownerWriteFill(dst []byte, pat byte) {
 	for i := range dst {
 		dst[i] = pat
 	}
+}
+
+// ownerScribbleFrame: a worker owns the frame it decoded and may do with it
+// what it likes - here it writes through every pointer and slice the decoded
+// value holds. If any of that memory is shared with another decoded frame,
+// with the library or with the input, other tasks see their data change (and
+// the race detector sees the conflicting accesses).
+//
+//go:noinline
+func ownerScribbleFrame(phy *lorawan.PHYPayload) {
+	mp, ok := phy.MACPayload.(*lorawan.MACPayload)
+	if !ok {
+		return
+	}
+	if mp.FPort != nil {
+		*mp.FPort ^= 0xff
+	}
+	scr := func(pls []lorawan.Payload) {
+		for _, p := range pls {
+			switch v := p.(type) {
+			case *lorawan.DataPayload:
+				for i := range v.Bytes {
+					v.Bytes[i] ^= 0x5a
+				}
+			case *lorawan.MACCommand:
+				if pp, ok := v.Payload.(*lorawan.ProprietaryMACCommandPayload); ok {
+					for i := range pp.Bytes {
+						pp.Bytes[i] ^= 0x5a
+					}
+				}
+			}
+		}
+	}
+	scr(mp.FHDR.FOpts)
+	scr(mp.FRMPayload)
+	simrt.Count(cScribbleOwn)
 }
 
 // ------------------------------------------------------------------ worker
@@ -404,6 +455,7 @@ func processFrame(j *job, r *sim.Rand) {
 		simrt.Report("alias.decode:content", fmt.Sprintf("frame decoded from a reused buffer decrypts to an unexpected shape: %s", frameSig(j.phy)))
 		return
 	}
+	defer ownerScribbleFrame(j.phy)
 	if same, why := fa.SameContent(fb); !same {
 		where := "MACPayload.FRMPayload"
 		if len(why) >= 5 && why[:5] == "fopts" {
